@@ -4,19 +4,26 @@ from props import ringlib as R
 
 ID = 'C07'
 PROP_FILE = 'Props/C07.v'
-EVAL_FILES = ['Oracle/C07Oracle.v', 'Model/RingThreads.v']
+EXTRA_PROP_FILES = ['Props/C07Src.v']     # K1 source tie (tools/props/src_translate.py), see docs/reports/SRC.md
+EVAL_FILES = ['Oracle/C07Oracle.v', 'Oracle/C07UOracle.v', 'Model/RingThreads.v', 'Model/RingAgent.v']
 CRATES = ['c06']
 MODES = ['debug', 'release']
 IMPORTS = ('Require Import V.Base.MachineInt V.Model.LogBase V.Model.Ring V.Model.RingThreads V.Spec.Fifo '
-           'V.Oracle.C06Oracle V.Oracle.C07Oracle.')
+           'V.Oracle.C06Oracle V.Oracle.C07Oracle V.Model.RingAgent V.Oracle.C07UOracle.')
 RULE = ('crash: the real write() of a producer thread is stopped for ever (deterministic scheduler on the access hook) after k = 0..12 granted '
         'shared accesses, for claim placements {middle, flush with the end of the data area, wrapped with 24 or 8 bytes of padding, '
         'wrapped on a later lap} x {nothing / one committed record in front} x {0,1,2 commands of a survivor behind} x '
         '{consumer idle / reading during the run}; epilogue on the same ring: dump, unblock, dump, read, dump, unblock, dump, read, dump, '
         'write by a survivor, dump, unblock, dump, read, read, dump. Plus random programs / schedules with 1-2 producers stopped at random points. '
+        'uconc: unblock() itself under the scheduler - thread 0 is the consumer-side agent (reads, then unblock() calls), a producer is '
+        'stopped after its compare-and-set / header / copy, survivors are inside write while unblock scans: every split of the survivor\'s '
+        'and the agent\'s accesses (a steps of the survivor, b of the agent, c of the survivor, rest) for claims in the middle, flush with the '
+        'end and wrapped; a third producer committed behind a blank live claim (scan_back_to_confirm_still_zeroed fails or the live claim is '
+        'swept); random programs and schedules. '
         'non-trivial = a producer was actually stopped inside write (after its first access and before its commit)')
 ASSUMPTIONS = [
-    'no surviving producer is inside write while unblock scans (the algorithm\'s documented assumption): unblock runs in the sequential epilogue',
+    'conc cases: unblock runs in the sequential epilogue; uconc cases: unblock is interleaved with surviving producers, and a padding that covers '
+    'the claim of a producer that is still alive (the algorithm assumes it dead) ends the judgement of that case (counted in the evidence)',
     'every write of a case carries its own message type id, so that a delivered message identifies the write call it came from',
 ]
 
@@ -54,9 +61,85 @@ def grid():
     return cases
 
 
+def _ucase(cap, p0, agent, progs, sched, stops, post=None, pre=None, hc0=None):
+    return {'kind': 'uconc', 'cap': cap, 'p0': p0, 'hc0': p0 if hc0 is None else hc0, 'c0': 0, 'pre': pre or [], 'agent': agent, 'progs': progs,
+            'sched': sched, 'stops': stops, 'post': POST if post is None else post}
+
+
+def ugrid(rng, big):
+    """unblock() interleaved with producers: thread 1 dies at kd, thread 2 (and 3) survive"""
+    BIG = 400
+    cap = 64
+    cases = []
+    # A: dead claim at the consumer position, a survivor behind it; every split survivor a / agent b / survivor c
+    fam = []
+    for name, x, ln in (('middle', 8, 8), ('flush', 48, 8), ('wrap', 56, 8), ('middle-short', 16, 0)):
+        for kd in (3, 4, 5):
+            for a in (0, 3, 4, 5, 6, 9):
+                for b in range(1, 13):
+                    for c in (1, 2, 3, BIG):
+                        agent = ['u', 'u'] if name != 'wrap' else [R.INF, 'u', 'u']
+                        progs = [[[1, ln, 0]], [[2, 3, 1], [3, 0, 2]]]
+                        sched = [[1, BIG], [2, a], [0, b], [2, c], [0, BIG], [2, BIG]]
+                        fam.append(_ucase(cap, x, agent, progs, sched, [-1, kd, -1]))
+    cases += fam if big else rng.sample(fam, 260)
+    # B: blank live claim between the dead claim and a committed record: the forward scan passes over it, the live
+    #    producer writes its header before / during / after the backward scan
+    fam = []
+    for x in (8, 24):
+        for kd in (3,):
+            for b in range(3, 16):
+                for c in (1, 2, 3):
+                    for b2 in (1, 2, BIG):
+                        progs = [[[1, 0, 0]], [[2, 8, 1]], [[3, 0, 2]]]
+                        sched = [[1, BIG], [2, 3], [3, BIG], [0, b], [2, c], [0, b2], [2, BIG], [0, BIG]]
+                        fam.append(_ucase(cap, x, ['u', 'u'], progs, sched, [-1, kd, -1, -1]))
+                        # the same with the middle producer dead as well: the padding covers both claims
+                        fam.append(_ucase(cap, x, ['u', 'u'], progs, sched, [-1, kd, 3 + (c if c < 3 else 0), -1]))
+    cases += fam if big else rng.sample(fam, 200)
+    # C: nobody is dead (a slow producer is taken for a dead one)
+    for b in range(1, 8):
+        for a in (3, 4, 5):
+            cases.append(_ucase(cap, 8, ['u'], [[[1, 8, 0]], [[2, 0, 1]]], [[1, a], [2, BIG], [0, b], [1, 2], [0, BIG], [1, BIG]], [-1, -1, -1]))
+    return cases
+
+
+def urandom(rng, n):
+    cases = []
+    for i in range(n):
+        cap = rng.choice([32, 64, 64, 128])
+        nprod = rng.choice([2, 3, 3])
+        nw = [rng.randrange(1, 3) for _ in range(nprod)]
+        types = R.fresh_types(rng, sum(nw) + 1)
+        progs, k = [], 0
+        for nn in nw:
+            prog = []
+            for _ in range(nn):
+                prog.append([types[k], rng.choice([0, 1, 7, 8, cap // 8, rng.randrange(0, cap // 8 + 1)]), k])
+                k += 1
+            progs.append(prog)
+        # reads first, then unblock() calls: a read after a padding that covered a live claim would let that producer
+        # write into space already handed back, which the slot model does not describe
+        agent = [rng.choice([1, 2, R.INF]) for _ in range(rng.randrange(0, 3))] + ['u'] * rng.randrange(1, 4)
+        p0 = rng.choice([0, cap - 8, cap - 16, cap - 24, 8 * rng.randrange(0, cap // 8), 2**32 - 16])
+        nthreads = nprod + 1
+        sched = []
+        for _ in range(rng.randrange(4, 18)):
+            sched.append([rng.choice([0, 0] + list(range(nthreads))), rng.randrange(1, 9)])
+        stops = [-1] * nthreads
+        for t in rng.sample(range(1, nthreads), rng.choice([1, 1, 2])):
+            stops[t] = rng.randrange(2, 8)
+        post = [list(o) for o in POST]
+        post[9] = ['w', types[-1], rng.randrange(0, cap // 8 + 1), 77]
+        cases.append(_ucase(cap, p0, agent, progs, sched, stops, post))
+    return cases
+
+
 def generate(rng, tier):
     big = tier == 'thorough'
     cases = grid()
+    cases += ugrid(rng, big)
+    cases += urandom(rng, 140 if not big else 6000)
     for i in range(150 if not big else 6000):
         cap = rng.choice([32, 64, 64, 128])
         nprod = rng.choice([2, 3, 3])
@@ -85,14 +168,17 @@ def generate(rng, tier):
 
 
 def impl_line(c):
-    return R.conc_line(c)
+    return R.uconc_line(c) if c['kind'] == 'uconc' else R.conc_line(c)
 
 
 def model_expr(c, mode):
-    return R.conc_model(c, mode)
+    return R.uconc_model(c, mode) if c['kind'] == 'uconc' else R.conc_model(c, mode)
 
 
 def oracle_expr(c, mode, obs):
+    if c['kind'] == 'uconc':
+        return 'holds_uconc %s %s %s %s %s %s %s' % (z(c['cap']), z(c['p0']), R.ops_coq(c['pre']), R.progs_coq(c), R.stops_coq(c),
+                                                    R.ops_coq(c['post']), to_coq(obs))
     return 'holds_crash %s %s %s %s %s %s' % (z(c['cap']), z(c['p0']), R.ops_coq(c['pre']), R.progs_coq(c), R.ops_coq(c['post']), to_coq(obs))
 
 
@@ -121,10 +207,15 @@ def shrink(c):
         d = dict(c)
         d['post'] = c['post'][:3]
         out.append(d)
-    if c['limits']:
+    if c.get('limits'):
         d = dict(c)
         d['limits'] = c['limits'][:-1]
         out.append(d)
+    if c.get('agent') and len(c['agent']) > 1:
+        for i in range(len(c['agent'])):
+            d = dict(c)
+            d['agent'] = c['agent'][:i] + c['agent'][i + 1:]
+            out.append(d)
     for i in range(len(c['sched'])):
         d = dict(c)
         d['sched'] = c['sched'][:i] + c['sched'][i + 1:]
